@@ -181,6 +181,9 @@ pub enum TargetMode {
     SendAndClose,
     /// send greeting, half-close the write side, keep reading
     SendAndHalfClose,
+    /// echo, but close the connection after 300 ms without traffic (keeps long LX runs within the
+    /// descriptor limit: the server never closes a target connection by itself — open finding C08)
+    EchoIdleClose,
 }
 
 pub struct Target {
@@ -248,7 +251,15 @@ pub async fn start_target(ip: &str, mode: TargetMode, greeting: Vec<u8>) -> Targ
                 }
                 let mut buf = vec![0u8; 65536];
                 loop {
-                    match s.read(&mut buf).await {
+                    let r = if mode == TargetMode::EchoIdleClose {
+                        match tokio::time::timeout(Duration::from_millis(300), s.read(&mut buf)).await {
+                            Ok(r) => r,
+                            Err(_) => return, // idle: close
+                        }
+                    } else {
+                        s.read(&mut buf).await
+                    };
+                    match r {
                         Ok(0) => {
                             rec.lock().unwrap().eof = true;
                             return;
@@ -256,7 +267,7 @@ pub async fn start_target(ip: &str, mode: TargetMode, greeting: Vec<u8>) -> Targ
                         Err(_) => return,
                         Ok(n) => {
                             rec.lock().unwrap().received.extend_from_slice(&buf[..n]);
-                            if mode == TargetMode::Echo && s.write_all(&buf[..n]).await.is_err() {
+                            if (mode == TargetMode::Echo || mode == TargetMode::EchoIdleClose) && s.write_all(&buf[..n]).await.is_err() {
                                 return;
                             }
                         }
